@@ -190,7 +190,11 @@ func (p *bProc) dial(carriers []string, tok string) (*websocket.Conn, error) {
 // dialRaw also returns the TCP connection, so that a client can drop the
 // transport without a WebSocket close frame.
 func (p *bProc) dialRaw(carriers []string, tok string) (*websocket.Conn, net.Conn, error) {
-	u := "ws://" + p.addr + "/"
+	return p.dialPath("/", carriers, tok)
+}
+
+func (p *bProc) dialPath(path string, carriers []string, tok string) (*websocket.Conn, net.Conn, error) {
+	u := "ws://" + p.addr + path
 	for _, c := range carriers {
 		if c == "query" {
 			u += "?access_token=" + tok
@@ -264,7 +268,7 @@ func wsUntil(ws *websocket.Conn, want int32, d time.Duration) ([]Rx, bool) {
 // C15 through the binary: the routes of cmd/main.go
 
 func TestC15Binary(t *testing.T) {
-	col := NewCollector("C15", "binary", "the real binary with a fake discovery service: once with the registration completed (secret issued), once with the registration request accepted but never confirmed (no secret); generated tokens (admissible, and one or two deviations: other/empty key, alg none/foreign/mismatch, expired, not yet valid, issued in the future, 12 tamperings) in the Authorization header, the query string or a cookie; for each: a WebSocket upgrade of / must succeed exactly when the reference admits the token, and a /smoke-test trigger (POST, and OPTIONS/GET/PUT/HEAD/DELETE/PATCH with the same body) must be answered 401 without contacting the endpoint named in its body unless admitted, and a POST 200 exactly when admitted; non-trivial = distinct (token, carrier) that differs from an admissible one in one respect, or an admissible token in a non-header carrier")
+	col := NewCollector("C15", "binary", "the real binary with a fake discovery service: once with the registration completed (secret issued), once with the registration request accepted but never confirmed (no secret); generated tokens (admissible, and one or two deviations: other/empty key, alg none/foreign/mismatch, expired, not yet valid, issued in the future, 12 tamperings) in the Authorization header, the query string or a cookie; for each: a WebSocket upgrade of / must succeed exactly when the reference admits the token, and an upgrade of any other path the catch-all route serves (/relay, /v1/session, /smoke-test/, /a/b/c) must never succeed without an admissible token, and a /smoke-test trigger (POST, and OPTIONS/GET/PUT/HEAD/DELETE/PATCH with the same body) must be answered 401 without contacting the endpoint named in its body unless admitted, and a POST 200 exactly when admitted; non-trivial = distinct (token, carrier) that differs from an admissible one in one respect, or an admissible token in a non-header carrier")
 	t.Cleanup(col.Write)
 	for _, registered := range []bool{true, false} {
 		p, err := startB("", registered)
@@ -296,23 +300,25 @@ func TestC15Binary(t *testing.T) {
 			if carrier != "none" {
 				carriers = []string{carrier}
 			}
-			// WebSocket upgrade
-			ws, err := p.dial(carriers, tok)
+			// WebSocket upgrade - on the root path and on other paths the catch-all route serves
+			wsPath := pick(rt, "ws_path", []string{"/", "/", "/", "/relay", "/v1/session", "/smoke-test/", "/a/b/c"})
+			ws, _, err := p.dialPath(wsPath, carriers, tok)
 			if err == nil {
 				ws.Close()
 			} else if !strings.Contains(err.Error(), "bad status") {
 				rt.Skip("transport problem during the upgrade (not a refusal): inconclusive") // a refusal is an HTTP status other than 101
 			}
 			method := pick(rt, "method", []string{"POST", "POST", "POST", "OPTIONS", "OPTIONS", "GET", "PUT", "HEAD", "DELETE", "PATCH"})
-			labels := map[string]int{fmt.Sprintf("registered_%v", registered): 1, fmt.Sprintf("admit_%v", admit): 1, "carrier_" + carrier: 1, "smoke_test_method_" + method: 1}
+			labels := map[string]int{fmt.Sprintf("registered_%v", registered): 1, fmt.Sprintf("admit_%v", admit): 1, "carrier_" + carrier: 1, "smoke_test_method_" + method: 1, "ws_path_" + wsPath: 1}
 			oneOff := registered && carried && spec.Key == p.secret && !sound
 			col.Case(fmt.Sprintf("%v/%s/%s/%s", registered, carrier, method, tok), oneOff || (admit && carrier != "header"), labels, func() any {
 				return map[string]any{"registered": registered, "carrier": carrier, "spec": spec, "admitted": admit}
 			})
-			if (err == nil) != admit {
+			// (on paths other than / only "no admission without a sound token" is asserted)
+			if (err == nil) != admit && (wsPath == "/" || err == nil) {
 				col.Violations++
-				saveCase("C15", map[string]any{"registered": registered, "carrier": carrier, "spec": spec})
-				rt.Fatalf("C15 violated: WebSocket upgrade of / %s although the reference %s the token (registered=%v carrier=%s spec=%+v err=%v)", map[bool]string{true: "succeeded", false: "was refused"}[err == nil], map[bool]string{true: "admits", false: "rejects"}[admit], registered, carrier, spec, err)
+				saveCase("C15", map[string]any{"registered": registered, "carrier": carrier, "spec": spec, "path": wsPath})
+				rt.Fatalf("C15 violated: WebSocket upgrade of "+wsPath+" %s although the reference %s the token (registered=%v carrier=%s spec=%+v err=%v)", map[bool]string{true: "succeeded", false: "was refused"}[err == nil], map[bool]string{true: "admits", false: "rejects"}[admit], registered, carrier, spec, err)
 			}
 			// smoke test trigger
 			path := fmt.Sprintf("/probe-%v-%d", registered, i)
@@ -577,7 +583,7 @@ func TestC17Binary(t *testing.T) {
 		}
 		flags := flagsFromMask(mask, false)
 		if uni(rt, "unknown", 3) == 0 {
-			flags = append(flags, "DISABLE_EVERYTHING", "disable_session_state")
+			flags = flagsFromMask(mask, true)
 		}
 		// the option parser of the binary takes list-valued options as a JSON array
 		// (a comma separated value, which the option's help text suggests, is silently ignored)
